@@ -66,7 +66,7 @@ def gen_project(r, npkgs=None):
     return proj
 
 
-EDIT_KINDS = ["bscript", "pscript", "coscript", "var-value", "var-list", "dep-add", "dep-remove", "tool-use",
+EDIT_KINDS = ["src-dir", "bscript", "pscript", "coscript", "var-value", "var-list", "dep-add", "dep-remove", "tool-use",
               "tool-weak", "tool-path", "src-modify", "src-modify", "src-modify", "src-add", "src-delete",
               "fingerprint", "revert", "noop"]
 # edits that change a Build-Id but (typically) no Variant-Id: only the build-id comparison can notice them
@@ -164,6 +164,9 @@ def edit(r, proj, history, kinds=None):
                     continue
                 del files[r.choice(cands)]
             return p, [kind, name]
+        if kind == "src-dir" and pkg["src"]:
+            pkg["src"]["dir"] = "imp" if pkg["src"]["dir"] == "." else "."
+            return p, [kind, name]
         if kind == "fingerprint":
             pkg["fingerprint"] = not pkg["fingerprint"]
             return p, [kind, name]
@@ -203,6 +206,8 @@ def render_recipe(name, pkg, proj, is_root):
         use = ["result"]
         if d in pkg["useTools"]:
             use.append("tools")
+        if d in pkg.get("toolOnly", []):
+            use = ["tools"]
         deps.append({"name": d, "use": use})
     if deps:
         rec["depends"] = deps
